@@ -782,6 +782,14 @@ def _sink_returns(tree: ast.AST) -> None:
           for body in all_blocks():
             if changed:
                 break
+            # `v = E` directly followed by `return v`, v read by nothing but returns: `return E`
+            if len(body) >= 2 and isinstance(body[-1], ast.Return) and isinstance(body[-1].value, ast.Name) and isinstance(body[-2], ast.Assign) \
+                    and len(body[-2].targets) == 1 and isinstance(body[-2].targets[0], ast.Name) and body[-2].targets[0].id == body[-1].value.id \
+                    and body[-1].value.id in only_returned:
+                e_ = body[-2].value
+                body[-2:] = [ast.copy_location(ast.Return(value=e_), body[-2])]
+                changed = True
+                continue
             # the same inside the branches of trailing conditionals (`else: if c: s = X` + `return s` nested one level down)
             def nested_tail(block, depth=0):
                 did = False
